@@ -279,5 +279,370 @@ theorem cursorSpec_ext {t t' : Tree} (h : wfB t = true) (h' : wfB t' = true)
     have := (hs L C s).mp ((cursorSpec_some_iff h' L C s).mp h1)
     exact ((cursorSpec_some_iff h L C s).mpr this).symm
 
+
+/-! ### Part 2: from "every cell whose owner changes is damaged" (C01) to "a restore is pending or `cursorSpec` is
+    unchanged" -/
+
+open WinFlush in
+/-- The invariants the window engine's step lemmas need, together with ours and the flag discipline. -/
+structure Good15 (t : Tree) : Prop where
+  wf : wfB t = true
+  wfp : WFp t
+  rootWin : RootWin t
+  onlyRoot : OnlyRoot t
+  nodup : ChildrenNodup t
+  noSelf : NoSelfParent t
+  pos : RootsPositive t
+  nonempty : ∀ x ∈ t.root.damage, x.Nonempty
+  /-- recorded damage is flagged for the next flush -/
+  flagged : t.root.damage ≠ [] → t.root.needsExpose = true
+  /-- a pending expose or restore keeps the flush from being skipped -/
+  later : (t.root.needsExpose = true ∨ t.root.needsRestore = true) → t.root.needsLater = true
+
+/-- Something is pending that makes the next flush re-establish the cursor. -/
+def Pending (t : Tree) : Prop :=
+  (t.root.needsRestore = true ∨ t.root.needsExpose = true) ∧ t.root.needsLater = true
+
+/-- The cell a window paints, as a terminal cell that names the window and the position. -/
+def encCell (w : Nat) (l c : Int) : WinRB.Cell := ⟨w + 1, l, c, false⟩
+
+/-- The screen that shows, in every cell, who owns it in `t`. -/
+def snapshot (t : Tree) (L C : Int) : WinRB.Cell :=
+  match ownerAt t L C with
+  | some (w, l, c) => encCell w l c
+  | none => ⟨0, 0, 0, false⟩
+
+theorem invC_snapshot (t : Tree) : WinFlush.InvC encCell t (snapshot t) := by
+  intro L C w l c ho
+  right
+  unfold snapshot; rw [ho]
+
+/-- With no damage recorded, "damaged or already right" against the snapshot of `t` says ownership is as in `t`. -/
+theorem invC_forward {t t' : Tree} (h : WinFlush.InvC encCell t' (snapshot t)) (hd : t'.root.damage = [])
+    {L C : Int} {x : Nat × Int × Int} (ho : ownerAt t' L C = some x) : ownerAt t L C = some x := by
+  obtain ⟨w, l, c⟩ := x
+  rcases h L C w l c ho with hc | hc
+  · rw [hd] at hc; exact absurd hc (RectSet.covered_nil L C)
+  · unfold snapshot at hc
+    cases hat : ownerAt t L C with
+    | none => rw [hat] at hc; simp [encCell] at hc
+    | some v =>
+      obtain ⟨w', l', c'⟩ := v
+      rw [hat] at hc
+      simp [encCell] at hc
+      obtain ⟨a, b, c⟩ := hc
+      subst a b c; rfl
+
+/-- The records along the focus chain of `t` are as they were (links, focus flags, cursor records). -/
+def ChainSame (t t' : Tree) : Prop :=
+  t'.wins.size = t.wins.size ∧
+  ∀ y w, OnChain t y → Live t y w →
+    ∃ w', Live t' y w' ∧ w'.focusedChild = w.focusedChild ∧ w'.isFocused = w.isFocused ∧ w'.cursor = w.cursor
+
+theorem chainSame_kept {t t' : Tree} (h : ChainSame t t') (b : Nat) : Kept b t t' :=
+  ⟨h.1, fun y w ho hw => by
+    obtain ⟨w', hw', h1, h2, _⟩ := h.2 y w ho hw
+    exact ⟨w', hw', h1, fun _ hf => h2.trans hf⟩⟩
+
+theorem chainSame_end {t t' : Tree} (hwf : wfB t = true) (h : ChainSame t t') :
+    chainEnd t' (treeFuel t') 0 = chainEnd t (treeFuel t) 0 := by
+  have hf : treeFuel t' = treeFuel t := by unfold treeFuel; rw [h.1]
+  rw [hf]
+  exact chainEnd_kept hwf (chainSame_kept h 0) _ 0 .root
+
+/-- What decides whether the root window claims a cell. -/
+def rootFace (w : Win) : Bool × Bool × Rect := (w.isVisible, w.freed, w.rect)
+
+theorem ownerAt_isSome_root {t t' : Tree} (hsz : t'.wins.size = t.wins.size)
+    (hroot : (t'.wins[0]?).map rootFace = (t.wins[0]?).map rootFace)
+    {L C : Int} (h : (ownerAt t L C).isSome = true) : (ownerAt t' L C).isSome = true := by
+  unfold ownerAt at h ⊢
+  rw [hsz]
+  rw [ownerLoc] at h ⊢
+  cases hr : t.wins[0]? with
+  | none => rw [hr] at h; simp at h
+  | some r =>
+    rw [hr] at h hroot
+    cases hr' : t'.wins[0]? with
+    | none => rw [hr'] at hroot; simp at hroot
+    | some r' =>
+      rw [hr'] at hroot
+      simp [rootFace] at hroot
+      obtain ⟨e1, e2, e3⟩ := hroot
+      simp only [] at h ⊢
+      rw [e1, e2, e3]
+      by_cases h1 : (!r.isVisible || r.freed) = true
+      · simp [h1] at h
+      · simp only [h1, Bool.false_eq_true, if_false] at h ⊢
+        by_cases h2 : (!r.rect.memb L C) = true
+        · simp [h2] at h
+        · simp only [h2, Bool.false_eq_true, if_false]
+          cases List.findSome? (fun ch => ownerLoc t' t.wins.size ch (L - r.rect.top) (C - r.rect.left)) r'.children <;> rfl
+
+/-- The generic step: an operation that (i) keeps "damaged or already right" against the snapshot of the tree before,
+    (ii) either leaves the root record alone or flags an expose, (iii) leaves the root window and the focus chain alone,
+    leaves a restore pending or does not change `cursorSpec`. -/
+theorem requests_of_step {t t' : Tree} (hg : Good15 t) (hwf' : wfB t' = true)
+    (hinv : WinFlush.InvC encCell t' (snapshot t))
+    (hflags : t'.root = t.root ∨ (t'.root.needsExpose = true ∧ t'.root.needsLater = true))
+    (hroot : (t'.wins[0]?).map rootFace = (t.wins[0]?).map rootFace) (hchain : ChainSame t t') :
+    Pending t' ∨ cursorSpec t' = cursorSpec t := by
+  rcases hflags with hr | ⟨h1, h2⟩
+  · by_cases hd : t.root.damage = []
+    · right
+      have hd' : t'.root.damage = [] := by rw [hr]; exact hd
+      have hce := chainSame_end hg.wf hchain
+      apply cursorSpec_ext hg.wf hwf'
+      intro L C s
+      constructor
+      · rintro ⟨w', hw', hf, hcv, hs, hat⟩
+        rw [hce] at hw' hat
+        have hoe : OnChain t (chainEnd t (treeFuel t) 0) := onChain_chainEnd hg.wf _ 0 .root
+        obtain ⟨w, hw⟩ := onChain_live hg.wf hoe
+        obtain ⟨w'', hw'', _, hf'', hc''⟩ := hchain.2 _ w hoe hw
+        have := live_unique hw'' hw'; subst this
+        rw [hc''] at hat hcv hs
+        exact ⟨w, hw, hf''.symm.trans hf, hcv, hs, invC_forward hinv hd' hat⟩
+      · rintro ⟨w, hw, hf, hcv, hs, hat⟩
+        have hoe : OnChain t (chainEnd t (treeFuel t) 0) := onChain_chainEnd hg.wf _ 0 .root
+        obtain ⟨w', hw', _, hf', hc'⟩ := hchain.2 _ w hoe hw
+        have hsome := ownerAt_isSome_root hchain.1 hroot (by rw [hat]; rfl)
+        cases hat' : ownerAt t' L C with
+        | none => rw [hat'] at hsome; cases hsome
+        | some y =>
+          have := invC_forward hinv hd' hat'
+          rw [hat] at this; cases this
+          refine ⟨w', by rw [hce]; exact hw', hf'.trans hf, by rw [hc']; exact hcv, by rw [hc']; exact hs, ?_⟩
+          rw [hce, hc']; exact hat'
+    · left
+      have := hg.flagged hd
+      exact ⟨.inr (by rw [hr]; exact this), by rw [hr]; exact hg.later (.inl this)⟩
+  · exact .inl ⟨.inr h1, h2⟩
+
+
+/-! ### helpers about the focus chain and `_get_root` -/
+
+theorem chainSame_refl (t : Tree) : ChainSame t t := ⟨rfl, fun _ w _ hw => ⟨w, hw, rfl, rfl, rfl⟩⟩
+
+theorem chainSame_trans {t1 t2 t3 : Tree} (h12 : ChainSame t1 t2) (h23 : ChainSame t2 t3) : ChainSame t1 t3 := by
+  refine ⟨h23.1.trans h12.1, fun y w ho hw => ?_⟩
+  obtain ⟨w2, hw2, a2, b2, c2⟩ := h12.2 y w ho hw
+  obtain ⟨w3, hw3, a3, b3, c3⟩ := h23.2 y w2 (onChain_kept (chainSame_kept h12 0) ho) hw2
+  exact ⟨w3, hw3, a3.trans a2, b3.trans b2, c3.trans c2⟩
+
+theorem chainSame_wins {t t' : Tree} (h : t'.wins = t.wins) : ChainSame t t' :=
+  ⟨by rw [h], fun y w _ hw => ⟨w, ⟨by rw [h]; exact hw.1, hw.2⟩, rfl, rfl, rfl⟩⟩
+
+/-- Rewriting one window: fine when its link, focus flag and cursor record stay, or when it is not on the chain. -/
+theorem chainSame_set {t : Tree} {x : Nat} {w w' : Win} (hw : Live t x w) (hf : w'.freed = false)
+    (hc : ¬ OnChain t x ∨ (w'.focusedChild = w.focusedChild ∧ w'.isFocused = w.isFocused ∧ w'.cursor = w.cursor)) :
+    ChainSame t (WinTree.set t x w') := by
+  refine ⟨by simp [WinTree.set], fun y wy ho hwy => ?_⟩
+  by_cases hxy : x = y
+  · subst hxy
+    have := live_unique hwy hw; subst this
+    rcases hc with hc | ⟨h1, h2, h3⟩
+    · exact absurd ho hc
+    · exact ⟨w', ⟨by rw [set_lookup hw.1]; simp, hf⟩, h1, h2, h3⟩
+  · exact ⟨wy, ⟨by rw [set_lookup hw.1]; simp [hxy]; exact hwy.1, hwy.2⟩, rfl, rfl, rfl⟩
+
+/-- Chain windows hang below the root. -/
+theorem onChain_anc {t : Tree} (h : wfB t = true) {x : Nat} (ho : OnChain t x) : Anc t x 0 := by
+  induction ho with
+  | root => exact .refl 0
+  | step _ hw hfc ih =>
+    obtain ⟨cw, hcw, hcp, _⟩ := wf_focused h hw hfc
+    exact .step hcw hcp ih
+
+/-- `_get_root` succeeds on every window below the root window. -/
+theorem getRoot_anc {t : Tree} (h : wfB t = true) : ∀ (f x : Nat) (w : Win), x < f → Live t x w → Anc t x 0 →
+    getRoot t f x = .ok 0 := by
+  intro f
+  induction f with
+  | zero => intro x w hf; omega
+  | succ f ih =>
+    intro x w hf hw h0
+    rw [getRoot]
+    simp only [bind_ok]
+    refine ⟨w, get_ok.mpr hw, ?_⟩
+    cases hp : w.parent with
+    | none =>
+      have := anc_parent_none hw hp h0
+      subst this
+      obtain ⟨r, hr, hroot, _⟩ := wf_root h
+      rw [live_unique hw hr]; simp [hroot]; rfl
+    | some p =>
+      obtain ⟨hlt, hnr, pw, hpw, _⟩ := wf_parent h hw hp
+      simp only [hnr, Bool.false_eq_true, if_false]
+      exact ih p pw (by omega) hpw (anc_parent_some h hw hp h0)
+
+/-- What `_get_root` reads. -/
+def rootWalk (w : Win) : Option Nat × Bool × Bool := (w.parent, w.isRoot, w.freed)
+
+theorem getRoot_congr {t t' : Tree} (h : ∀ i : Nat, (t'.wins[i]?).map rootWalk = (t.wins[i]?).map rootWalk) :
+    ∀ (f x : Nat), (∃ r, getRoot t' f x = .ok r) ↔ (∃ r, getRoot t f x = .ok r) := by
+  intro f
+  induction f with
+  | zero => intro x; simp [getRoot]
+  | succ f ih =>
+    intro x
+    rw [getRoot, getRoot]
+    have hx := h x
+    cases h1 : t.wins[x]? with
+    | none =>
+      rw [h1] at hx
+      cases h2 : t'.wins[x]? with
+      | none => simp [WinTree.get, h1, h2, bind]
+      | some _ => rw [h2] at hx; simp at hx
+    | some w =>
+      rw [h1] at hx
+      cases h2 : t'.wins[x]? with
+      | none => rw [h2] at hx; simp at hx
+      | some w' =>
+        rw [h2] at hx
+        simp [rootWalk] at hx
+        obtain ⟨e1, e2, e3⟩ := hx
+        simp only [WinTree.get, h1, h2, e3]
+        by_cases hfr : w.freed = true
+        · simp [hfr, bind]
+        · simp only [hfr, Bool.false_eq_true, if_false]
+          simp only [bind, e2]
+          by_cases hr : w.isRoot = true
+          · simp [hr, pure]
+          · simp only [hr, Bool.false_eq_true, if_false, e1]
+            cases w.parent with
+            | none => simp
+            | some p => exact ih p
+
+
+/-! ### `tickit_window_hide` -/
+
+/-- What `tickit_window_hide` does to the store. -/
+theorem hide_struct {t t'' : Tree} {fuel win : Nat} {w : Win} (hh : WinTree.hide t fuel win = .ok t'') (hw : Live t win w) :
+    (w.parent = none ∧ t'' = WinTree.set t win { w with isVisible := false }) ∨
+    (∃ p pw, w.parent = some p ∧ Live (WinTree.set t win { w with isVisible := false }) p pw ∧
+      t''.wins = (if pw.focusedChild = some win then
+                    WinTree.set (WinTree.set t win { w with isVisible := false }) p { pw with focusedChild := none }
+                  else WinTree.set t win { w with isVisible := false }).wins) := by
+  unfold WinTree.hide at hh
+  simp only [bind_ok] at hh
+  obtain ⟨t1, hm, w1, hg1, hh⟩ := hh
+  unfold WinTree.modify at hm
+  simp only [bind_ok, pure_ok] at hm
+  obtain ⟨w0, hg, ht1⟩ := hm
+  have := live_unique (get_ok.mp hg) hw; subst this
+  subst ht1
+  rw [get_set_self hw.1 (by exact hw.2)] at hg1
+  cases hg1
+  cases hp : w0.parent with
+  | none =>
+    left
+    simp only [hp, pure_ok] at hh
+    exact ⟨rfl, hh.symm⟩
+  | some p =>
+    right
+    simp only [hp, bind_ok] at hh
+    obtain ⟨pw, hgp, hh⟩ := hh
+    obtain ⟨hwins, _, _⟩ := expose_frame _ _ _ _ _ hh
+    exact ⟨p, pw, rfl, get_ok.mp hgp, hwins⟩
+
+theorem core_rootFace {a b : Option Win} (h : a.map WinFlush.core = b.map WinFlush.core) : a.map rootFace = b.map rootFace := by
+  cases a <;> cases b <;> simp [WinFlush.core, rootFace] at h ⊢
+  exact ⟨h.1, h.2.1, h.2.2.1⟩
+
+theorem rootWalk_set {t : Tree} {x : Nat} {w w' : Win} (hw : t.wins[x]? = some w) (hs : rootWalk w' = rootWalk w) :
+    ∀ i : Nat, ((WinTree.set t x w').wins[i]?).map rootWalk = (t.wins[i]?).map rootWalk := by
+  intro i
+  rw [set_lookup hw]
+  by_cases hi : x = i
+  · subst hi; simp [hw, hs]
+  · simp [hi]
+
+/-- `restore_requested` for `tickit_window_hide` (repaired source): afterwards a restore or an expose is pending, or
+    `cursorSpec` is what it was. -/
+theorem hide_requests {fx : Fixes} (hfx1 : fx.hiddenRoot = true) (hfx2 : fx.chainRestore = true) {t t' : Tree} {win : Nat}
+    (hg : Good15 t) (hh : hideWin fx t win = .ok t') : Pending t' ∨ cursorSpec t' = cursorSpec t := by
+  unfold hideWin at hh
+  simp only [bind_ok] at hh
+  obtain ⟨w, hgw, t'', h2, hh⟩ := hh
+  have hw := get_ok.mp hgw
+  obtain ⟨r0, hr0, hr0f, hr0r, hr0p, _, _⟩ := hg.rootWin.ex
+  by_cases h0 : win = 0
+  · -- the root window itself
+    subst h0
+    have := hw.1.symm.trans hr0; simp at this; subst this
+    simp only [hfx1, hr0p, hr0r, Option.isNone_none, Bool.and_self, if_true, pure_ok] at hh
+    subst hh
+    exact .inl ⟨.inl rfl, rfl⟩
+  · have hnr : w.isRoot = false := by
+      cases hr : w.isRoot with
+      | false => rfl
+      | true => exact absurd (hg.onlyRoot win w hw.1 hr) h0
+    simp only [hnr, Bool.and_false, Bool.false_eq_true, if_false, pure_ok] at hh
+    obtain ⟨hinv, _, _, _, _, _, hsz, hflags, t1', hsb, hwins1⟩ :=
+      WinFlush.hide_step encCell (snapshot t) t t'' win h2 h0 hg.wfp hg.rootWin hg.nonempty hg.pos (invC_snapshot t)
+    have hwf'' := hide_wf hg.wf h2
+    have hroot'' : (t''.wins[0]?).map rootFace = (t.wins[0]?).map rootFace := by
+      rw [hwins1]; exact core_rootFace (hsb.other 0 (fun h => h0 h.symm))
+    -- the first write: visibility only
+    have hcs1 : ChainSame t (WinTree.set t win { w with isVisible := false }) :=
+      chainSame_set hw (by exact hw.2) (.inr ⟨rfl, rfl, rfl⟩)
+    have finish : ∀ tf : Tree, tf.wins = t''.wins → tf.root = t''.root → ChainSame t t'' →
+        Pending tf ∨ cursorSpec tf = cursorSpec t := by
+      intro tf hwf hrf hcs
+      have hInv : WinFlush.InvC encCell tf (snapshot t) := by
+        intro L C x l c ho
+        rw [WinFlush.ownerAt_congr tf t'' hwf] at ho
+        rw [hrf]; exact hinv L C x l c ho
+      refine requests_of_step hg (by rw [wfB_wins hwf]; exact hwf'') hInv ?_ (by rw [hwf]; exact hroot'')
+        (chainSame_trans hcs (chainSame_wins hwf))
+      rcases hflags with h | ⟨a, b, _⟩
+      · exact .inl (hrf.trans h)
+      · exact .inr ⟨by rw [hrf]; exact a, by rw [hrf]; exact b⟩
+    rcases hide_struct h2 hw with ⟨hp, ht''⟩ | ⟨p, pw, hp, hpw, hwins⟩
+    · subst hh
+      simp only [hp, chainRestoreAfter]
+      exact finish t'' rfl rfl (ht'' ▸ hcs1)
+    · have hpne : win ≠ p := by
+        intro hc; subst hc
+        have := (wf_parent hg.wf hw hp).1; omega
+      have hpw0 : t.wins[p]? = some pw := by
+        have := hpw.1; rw [set_lookup hw.1] at this; simpa [hpne] using this
+      by_cases hfc : pw.focusedChild = some win
+      · -- the parent's link is cleared
+        simp only [hfc, if_true] at hwins
+        have ha : t''.wins[p]? = some { pw with focusedChild := none } := by
+          rw [hwins, set_lookup hpw.1]; simp
+        subst hh
+        simp only [hp, chainRestoreAfter, hpw0, ha, hfx2, hfc, Bool.true_and]
+        have hne : (some win ≠ (none : Option Nat)) := by simp
+        unfold requestRestoreAbove
+        cases hgr : getRoot t'' (treeFuel t'') p with
+        | ok r => exact .inl ⟨.inl rfl, rfl⟩
+        | ub e =>
+          simp only []
+          -- then the parent is not below the root, hence not on the focus chain
+          have hoff : ¬ OnChain t p := by
+            intro ho
+            have h1 := getRoot_anc hg.wf (treeFuel t) p pw (Nat.lt_succ_of_lt (live_lt ⟨hpw0, hpw.2⟩)) ⟨hpw0, hpw.2⟩ (onChain_anc hg.wf ho)
+            have hcongr : ∀ i : Nat, (t''.wins[i]?).map rootWalk = (t.wins[i]?).map rootWalk := by
+              intro i
+              rw [hwins, rootWalk_set (w' := { pw with focusedChild := none }) hpw.1 rfl i,
+                rootWalk_set (w' := { w with isVisible := false }) hw.1 rfl i]
+            have hf : treeFuel t'' = treeFuel t := by unfold treeFuel; rw [hsz]
+            have := (getRoot_congr hcongr (treeFuel t) p).mpr ⟨0, h1⟩
+            rw [← hf, hgr] at this
+            obtain ⟨_, h⟩ := this; cases h
+          refine finish t'' rfl rfl ?_
+          refine chainSame_trans hcs1 (chainSame_trans (chainSame_set hpw (by exact hpw.2) (.inl ?_)) (chainSame_wins hwins))
+          intro ho
+          exact hoff (onChain_kept_rev hg.wf (chainSame_kept hcs1 0) ho)
+      · simp only [hfc, if_false] at hwins
+        have ha : t''.wins[p]? = some pw := by rw [hwins]; exact hpw.1
+        subst hh
+        simp only [hp, chainRestoreAfter, hpw0, ha, ne_eq, not_true_eq_false, decide_false, Bool.and_false,
+          Bool.false_eq_true, if_false]
+        exact finish t'' rfl rfl (chainSame_trans hcs1 (chainSame_wins hwins))
+
 end WinFocus
 end Tickit
